@@ -50,7 +50,14 @@ func ParseSchema(source string) (*Schema, error) {
 				return nil, fmt.Errorf("read comment type: %w", err)
 			}
 
-			cur.SkipSpaces()
+			if i := strings.IndexRune(ctype, '\n'); i >= 0 {
+				// nothing is written after the first word, so the comment is over (and a part of the next line
+				// is read already): going back to the end of the line
+				cur.Unread(len([]rune(ctype)) - len([]rune(ctype[:i])))
+				ctype = ctype[:i]
+			} else {
+				cur.SkipSpaces()
+			}
 
 			switch ctype {
 			case "@type":
@@ -79,7 +86,10 @@ func ParseSchema(source string) (*Schema, error) {
 
 				paramComments[pname] = strings.TrimSpace(pcomment)
 			default:
-				return nil, fmt.Errorf("unknown comment type: %s", ctype)
+				// plain comment without annotation: skipping the rest of the line
+				if _, err := cur.ReadAt('\n'); err != nil {
+					return nil, fmt.Errorf("read comment: %w", err)
+				}
 			}
 
 			cur.Skip(1)
